@@ -543,7 +543,119 @@ func decoderCallbacksHonourContract(c *core.Ctx, rule string) {
 	_ = n
 }
 
+// ---------------------------------------------------------------- positioning loops consult the physical line counter
+
+// r7naturalLoop: blocks of the natural loop of back edge t -> h.
+func r7naturalLoop(h, t *ssa.BasicBlock) map[*ssa.BasicBlock]bool {
+	loop := map[*ssa.BasicBlock]bool{h: true}
+	var stack []*ssa.BasicBlock
+	if !loop[t] {
+		loop[t] = true
+		stack = append(stack, t)
+	}
+	for len(stack) > 0 {
+		x := stack[len(stack)-1]
+		stack = stack[:len(stack)-1]
+		for _, p := range x.Preds {
+			if !loop[p] {
+				loop[p] = true
+				stack = append(stack, p)
+			}
+		}
+	}
+	return loop
+}
+
+// positioningByLineCounter: header_row_index / data_row_index are physical line numbers, but one Read of the csv decoder
+// consumes one RECORD, which may span several physical lines (quoted field with embedded newline) or none that counts (a
+// failing read). A loop that skips records (calls the line-reporting reader's Read and drops the record) must therefore
+// be controlled, at its header, by a comparison whose operand is the reader's LineNum() evaluated inside the loop — not
+// by a count computed before the loop (seed C06-8) nor by a counter of successful reads (seed C01-15).
+func positioningByLineCounter(c *core.Ctx, rule string, pkgs []string) {
+	c.SSA()
+	hasLineNum := func(t types.Type) bool {
+		ms := c.SSA().MethodSets.MethodSet(t)
+		for i := 0; i < ms.Len(); i++ {
+			if ms.At(i).Obj().Name() == "LineNum" {
+				return true
+			}
+		}
+		return false
+	}
+	for _, f := range c.RepoFunctions() {
+		if core.IsCLIOrSample(core.FuncPkg(f)) || !inPkgs(core.FuncPkg(f), pkgs) {
+			continue
+		}
+		fk := core.FuncKey(f)
+		for _, t := range f.Blocks {
+			for _, h := range t.Succs {
+				if !h.Dominates(t) {
+					continue
+				}
+				loop := r7naturalLoop(h, t)
+				// a dropped-record Read inside the loop?
+				var skip *ssa.Call
+				for b := range loop {
+					for _, in := range b.Instrs {
+						call, ok := in.(*ssa.Call)
+						if !ok || call.Call.IsInvoke() {
+							continue
+						}
+						o := core.CalleeObj(call)
+						if o == nil || o.Name() != "Read" || len(call.Call.Args) == 0 || o.Pkg() == nil || !(o.Pkg().Path() == "encoding/csv" || hasLineNum(call.Call.Args[0].Type())) {
+							continue
+						}
+						used := false
+						for _, u := range core.Referrers(call) {
+							if ex, ok := u.(*ssa.Extract); ok && ex.Index == 0 && len(core.Referrers(ex)) > 0 {
+								used = true
+							}
+						}
+						if !used {
+							skip = call
+						}
+					}
+				}
+				if skip == nil {
+					continue
+				}
+				key := fk + " skips records"
+				good := false
+				if len(h.Instrs) > 0 {
+					if ifi, ok := h.Instrs[len(h.Instrs)-1].(*ssa.If); ok {
+						if bo, ok := ifi.Cond.(*ssa.BinOp); ok {
+							for _, op := range []ssa.Value{bo.X, bo.Y} {
+								if call, ok := op.(*ssa.Call); ok && loop[call.Block()] {
+									if o := core.CalleeObj(call); o != nil && o.Name() == "LineNum" {
+										good = true
+									}
+								}
+							}
+						}
+					}
+				}
+				c.Check(good, rule, key, core.InstrPos(skip), "the loop is controlled by the reader's LineNum() re-read on every iteration",
+					"a loop that skips csv records is not controlled by the decoder's physical line counter read inside the loop: records that span several lines (or reads that fail) make the reader stop on another line than header_row_index / data_row_index name")
+			}
+		}
+	}
+	c.Floor(rule, 1, "positioning loops of the csv reader")
+}
+
 func init() {
+	wrapRun("C06", func(c *core.Ctx) {
+		if c.CountRule("R06r") == 0 {
+			positioningByLineCounter(c, "R06r", []string{"extensions/omniv21/fileformat/csv"})
+		}
+	})
+	addDoc("C06", "R06r a loop of the csv reader that skips records is controlled, at its header, by the decoder's LineNum() re-read inside the loop (row indexes are physical line numbers; a record may span several lines).")
+	wrapRun("C01", func(c *core.Ctx) {
+		// R01k (= R06r): a skip loop driven by a counter that does not advance on a failing read never ends (seed C01-15)
+		if c.CountRule("R01k") == 0 {
+			positioningByLineCounter(c, "R01k", []string{"extensions/omniv21/fileformat/csv"})
+		}
+	})
+	addDoc("C01", "R01k (= C06 R06r) the csv positioning loop is controlled by the decoder's own line counter (a private counter that does not advance on a failing read makes Read spin).")
 	wrapRun("C03", func(c *core.Ctx) {
 		if c.CountRule("K23") == 0 {
 			decoderCallbacksHonourContract(c, "K23")
